@@ -725,6 +725,10 @@ func (f *File) Read(p []byte) (int, error) {
 	if f.n.dir {
 		return 0, perr("read", f.path, syscall.EISDIR)
 	}
+	// a read is a system call: other tasks may run before it returns
+	if t := simrt.Current(); t != nil {
+		t.Yield("fs read")
+	}
 	if f.off >= int64(len(f.n.data)) {
 		return 0, io.EOF
 	}
